@@ -418,6 +418,36 @@ def case_gmrf(rng):
                 value=float(v.detach()), grad=gr, expr=f"show_d ({e})")
 
 
+def case_gmrf_covariate(rng):
+    """d GMRFCovariate() / d field_i, d precision or d beta_k, built from JSON: the plain field density of the residual
+    x - Z beta (the same polymorphic `gmrf` term, the residual written with the Num operations)."""
+    torch = impl.load()
+    from torchtree.distributions.gmrf import GMRFCovariate
+    n, p = rng.randint(2, 7), rng.randint(1, 3)
+    x = [rng.uniform(-2, 2) for _ in range(n)]
+    tau = math.exp(rng.uniform(-2, 2))
+    Z = [[round(rng.uniform(-1.5, 1.5), 3) for _ in range(p)] for _ in range(n)]
+    beta = [rng.uniform(-1, 1) for _ in range(p)]
+    d = {"id": "gmrfc", "type": "GMRFCovariate", "field": impl.param_json("field", x),
+         "precision": impl.param_json("precision", [tau]), "covariates": Z, "beta": impl.param_json("beta", beta)}
+    dic = {}
+    g = GMRFCovariate.from_json(d, dic)
+    wrt = rng.choice(["field", "precision", "beta"])
+    i = rng.randrange({"field": n, "precision": 1, "beta": p}[wrt])
+    dic[wrt].requires_grad = True
+    dic[wrt].tensor = dic[wrt].tensor
+    v = g().sum()
+    v.backward()
+    gr = float(dic[wrt].tensor.grad.reshape(-1)[i])
+    B = C.coq_list(range(p), lambda k: _dq(beta[k], wrt == "beta" and k == i))
+    X = C.coq_list(range(n), lambda j: f"(sub NumD {_dq(x[j], wrt == 'field' and j == i)} "
+                                       f"(ndot NumD {C.coq_list(Z[j], lambda z: _dq(z, False))} {B}))")
+    e = f"gmrf NumD L2PI_D Plain {X} {_dq(tau, wrt == 'precision')}"
+    return dict(kind="gmrf_covariate", desc=dict(n=n, p=p, wrt=wrt, coordinate=i, field=x, precision=tau, covariates=Z,
+                                                  beta=beta),
+                value=float(v.detach()), grad=gr, expr=f"show_d ({e})")
+
+
 def declared_gradients_findings(rng):
     """Parameters DECLARED differentiable in the specification ("requires_grad": true), with no dtype, with the run's
     dtype and with another one (a float32 parameter in a float64 run): after backward() every one of them holds a
@@ -551,7 +581,8 @@ def run(tier, seed, replay=None):
 
     # correspondence with proved derivative enclosures
     t0 = time.time()
-    gens = [case_height_jacobian, case_loglik_branch, case_site_rates, case_coalescent, case_bdsk, case_gmrf]
+    gens = [case_height_jacobian, case_loglik_branch, case_site_rates, case_coalescent, case_bdsk, case_gmrf,
+            case_gmrf_covariate]
     ncorr = 72 if tier == "quick" else 600
     cases = []
     for i in range(ncorr):
